@@ -25,10 +25,12 @@ Definition PInv (h : heap) (R wl : list id) : Prop :=
 Definition EInv (h : heap) (R wl : list id) : Prop :=
   forall x, cnt x R + cnt x (heap_refs h) + cnt x wl = rcof h x.
 
-(* intern table: distinct objects, each entry points at a live string with that content *)
+(* intern table: distinct objects, each entry points at a live string with that content; positive counts *)
 Definition heap_wf (h : heap) : Prop :=
   NoDup (map snd (intern h)) /\
-  forall k i, In (k, i) (intern h) -> exists rc, get h i = Some (Live rc (Obj (KStr k) [])).
+  (forall k i, In (k, i) (intern h) -> exists rc, get h i = Some (Live rc (Obj (KStr k) []))) /\
+  (* an object whose count reached 0 was freed on the spot: live cells have a positive count *)
+  (forall x rc o, get h x = Some (Live rc o) -> 1 <= rc).
 
 Definition Inv (m : mstate) : Prop := heap_wf (hp m) /\ PInv (hp m) (roots m) [].
 Definition ExactInv (m : mstate) : Prop := heap_wf (hp m) /\ EInv (hp m) (roots m) [].
